@@ -4,6 +4,7 @@
    StaticFilterTableChains / StaticRawTableChains / StaticMangleTableChains (+ StaticFilterForwardAppendRules)
    produce for the raw PREROUTING/OUTPUT, mangle PREROUTING and filter INPUT/FORWARD/OUTPUT paths:
 
+     (mangle also: cali-POSTROUTING)
      raw    : cali-PREROUTING  cali-OUTPUT  cali-failsafe-in  cali-failsafe-out  cali-wireguard-incoming-mark
      mangle : cali-PREROUTING  cali-failsafe-in  cali-failsafe-out
      filter : cali-INPUT  cali-FORWARD  cali-OUTPUT  cali-wl-to-host  cali-failsafe-in  cali-failsafe-out
@@ -12,7 +13,7 @@
    cali-cidr-block) are NOT modelled: in the theorems they are arbitrary (universally quantified) chains,
    constrained only by decidable shape conditions stated in Spec.v.
 
-   Outside the model (the property is PARTIAL by design): NAT table, mangle POSTROUTING (DNAT'd egress),
+   Outside the model (the property is PARTIAL by design): NAT table,
    BPF-mode raw chains, kube-proxy IPVS support (KubeIPVSSupportEnabled = false), nftables flow offload.
 
    Matches that are not a function of the packet record are `MOther k` with k = 2*id + (1 if negated):
@@ -39,6 +40,10 @@ Definition other_of (base : N -> packet -> bool) (k : N) (p : packet) : bool :=
 (* IP set ids (the driver interns the real names) *)
 Definition SET_ALL_HOSTS : N := 1.      (* all-hosts-net *)
 Definition SET_VXLAN_NETS : N := 2.     (* all-vxlan-net *)
+Definition SET_THIS_HOST : N := 3.      (* this-host *)
+Definition SET_POOLS : N := 5.          (* network-ip-pools *)
+Definition SET_DSCP : N := 6.           (* dscp-src-net *)
+Definition SET_ISTIO : N := 7.          (* all-istio-weps *)
 
 (* ------------------------------------------------------------------ configuration *)
 Inductive fsnet := FsNoNet | FsBadNet | FsNet (c : cidr).
@@ -56,7 +61,8 @@ Record cfg := {
   c_openstack : bool; c_os_meta : option (N * N);       (* OpenStackSpecialCasesEnabled, metadata (IPv4 addr, port) *)
   c_ep_to_host : target;                                (* DefaultEndpointToHostAction as an action *)
   c_filter_allow : target; c_mangle_allow : target;     (* ACCEPT or RETURN *)
-  c_deny : target                                       (* DROP or REJECT *)
+  c_deny : target;                                      (* DROP or REJECT *)
+  c_istio : bool                                        (* IstioAmbientModeEnabled (mangle POSTROUTING DSCP rules) *)
 }.
 
 Definition all_bits (c : cfg) : N := N.lor (N.lor (N.lor (c_accept c) (c_pass c)) (c_scr0 c)) (c_scr1 c).
@@ -239,12 +245,28 @@ Definition mangle_prerouting (c : cfg) : list irule :=
     R [] (AJump CH_FROM_HEP);
     R [m_bit_set (c_accept c)] (c_mangle_allow c) ].
 
+(* ------------------------------------------------------------------ mangle POSTROUTING *)
+(* StaticManglePostroutingChain (BPF off, kube-ipvs off): Istio ambient DSCP marking, egress DSCP chain, then normal
+   host endpoint egress policy for host-originated traffic that was DNAT'd (its output interface is only final
+   here).  The DSCP target changes a header field outside the packet record: ANone. *)
+Definition CH_EGRESS_DSCP := "cali-egress-dscp"%string.
+Definition mangle_postrouting (c : cfg) : list irule :=
+  opt_rules (c_istio c)
+    (map (fun pfx => R [MProto false 6; MCtState false [CtNew]; MOutIface false pfx true;
+                        MDstIpSet false SET_ISTIO; MSrcIpSet false SET_ISTIO] ANone) (c_prefixes c))
+  ++ [ R [MSrcIpSet false SET_DSCP; MDstIpSet true SET_POOLS; MDstIpSet true SET_THIS_HOST] (AJump CH_EGRESS_DSCP);
+       R [m_bit_set (c_accept c)] AReturn;
+       R [] (AClearMark (all_bits c));
+       R [MOth false O_CT_DNAT] (AJump CH_TO_HEP);
+       R [m_bit_set (c_accept c)] AReturn ].
+
 (* ------------------------------------------------------------------ per-table chain maps *)
 Definition static_raw (c : cfg) : chains :=
   [ (CH_FS_IN, failsafe_in TRaw c); (CH_FS_OUT, failsafe_out TRaw c);
     (CH_PREROUTING, raw_prerouting c); (CH_WG_MARK, wg_mark_chain c); (CH_OUTPUT, raw_output c) ].
 Definition static_mangle (c : cfg) : chains :=
-  [ (CH_FS_IN, failsafe_in TMangle c); (CH_FS_OUT, failsafe_out TMangle c); (CH_PREROUTING, mangle_prerouting c) ].
+  [ (CH_FS_IN, failsafe_in TMangle c); (CH_FS_OUT, failsafe_out TMangle c); (CH_PREROUTING, mangle_prerouting c);
+    ("cali-POSTROUTING"%string, mangle_postrouting c) ].
 Definition static_filter (c : cfg) : chains :=
   [ (CH_FORWARD, filter_forward c); (CH_INPUT, filter_input c); (CH_WL_TO_HOST, wl_to_host c);
     (CH_FS_IN, failsafe_in TFilter c); (CH_OUTPUT, filter_output c); (CH_FS_OUT, failsafe_out TFilter c) ].
